@@ -136,9 +136,9 @@ func (s *Solver) define(sb *strings.Builder, t *Term) {
 			continue
 		}
 		if u.op == OpVar {
-			if !s.declVar[u.name] {
-				s.declVar[u.name] = true
-				fmt.Fprintf(sb, "(declare-const |in:%s| %s)\n", u.name, sortOf(u.w))
+			if sym := smtVarName(u); !s.declVar[sym] {
+				s.declVar[sym] = true
+				fmt.Fprintf(sb, "(declare-const |%s| %s)\n", sym, sortOf(u.w))
 			}
 			continue
 		}
@@ -384,7 +384,7 @@ func parseModel(txt string) (Model, error) {
 		default:
 			return nil, fmt.Errorf("bad model value %q", val)
 		}
-		m[strings.TrimPrefix(name, "in:")] = v
+		m[inputOfSMT(name)] = v
 	}
 	return m, nil
 }
